@@ -45,9 +45,7 @@ func (f *Makunbound) Call(s *slip.Scope, args slip.List, depth int) slip.Object 
 		slip.TypePanic(s, depth, "symbol", args[0], "symbol")
 	}
 	if !s.Remove(sym) {
-		if !slip.CurrentPackage.Locked {
-			slip.CurrentPackage.Remove(string(sym))
-		}
+		slip.CurrentPackage.Unbind(string(sym))
 	}
 	return sym
 }
